@@ -24,6 +24,20 @@ NOTES = ("All checks are property-based tests / fuzzers over generated inputs (D
 NOT_YET = {}
 
 TEXT = {
+    "C10": {
+        "engine": "engine-G",
+        "technique": "property-based testing (stateful): generated skinned shapes and sample shapes x sequences of partition operations; invariants (exact cover, vertex maps, mapped triangles, bone limit, weight normalisation, bone slots, dismember alignment, read-back) after every step and on the saved-and-reloaded file",
+        "level_text": "Thousands of skinned shapes for OB/FO3/SK/SSE with 1..120 bones and arbitrary weights, each driven through 1-4 generated partition operations (labels incl. -1 and out-of-range ids, deletions, default partition, rebuilds); every invariant of the statement is evaluated after each rebuild/reassignment and again on the reloaded file.",
+        "level_note": "Triangles are generated pairwise distinct; partition deletion is followed by the caller protocol get -> set -> rebuild; after a bare reassignment only coverage/alignment/read-back are demanded in memory (maps and weights are rebuilt later by design).",
+        "design_ref": "DESIGN.md section 3, C10",
+    },
+    "C20": {
+        "engine": "tape-pbt",
+        "technique": "property-based testing of algebraic laws with stated tolerances: inverse/compose/apply, rotation vector <-> matrix, 3x3/4x4 inversion, average/median of identical transforms, bounding-sphere containment and size bound, recomputed shape bounds; double-precision reference computations",
+        "level_text": "Hundreds of thousands of generated transforms (any angle, scale 0.05..20, |t| <= 1e5), well-conditioned matrices and point sets (1..2000 points incl. duplicates, collinear, coplanar, co-spherical, lattice) plus 1302 structured cases; each law is checked at a tolerance ~20x the worst error measured on the unchanged tree and the measured maxima are reported. Three root causes on the pinned tree are recorded as known findings.",
+        "level_note": "Tolerances are empirical with a stated safety factor, not error analyses; half-turn rotations are excluded only from the vector<->matrix conversion law, as the statement does.",
+        "design_ref": "DESIGN.md section 3, C20",
+    },
     "C09": {
         "engine": "engine-G",
         "technique": "property-based testing: generated shapes of every geometry kind (API-built, optionally skinned / strips / segments / LOCKEDNORM) and sample shapes x generated sorted deletion sets; reference model computed from a pre-deletion snapshot; save/reload round trip",
